@@ -446,6 +446,79 @@ for fn, tier, lab in _c04_tree:
 PROPS["C04"]["functions"] += ["btree::node::Node::{change, insert, insert_node, on_existing, remove_last, need_rebalance, split} on a two-level tree (children, node writes and value writes by contract)"]
 PROPS["C04"]["bounds"] += "; two-level trees: root with 2 separators over 3 leaves (4..8 separators each), one insertion / removal / remove_last, rebalance cases borrow-left / borrow-right / merge for leaf and inner children"
 
+# ======================================================================================== round 4
+# ---- C04.T / C14.T: BTree::write_sorted_changes (tree header glue: depth, root address, release of a replaced root)
+ROOTC = ["stub: Node::change -> script of outcomes per pass over the root (nothing / root split with a promoted separator / root under-full); C04.I, C04.D, C04.R decide the real function",
+         "stub: BTree::fetch_root, Node::fetch_child -> the harness's root (one separator, children 200/201) and child node",
+         "stub: BTreeTable::write_node_plan -> records (node, node id), new node gets a fresh address, rewritten node stays or moves (symbolic); unchanged node is not written",
+         "stub: BTreeTable::write_plan_remove_node -> records the released address"]
+_c04_t = (("c04_t_root_split_adds_level", "quick"), ("c04_t_first_root_split", "thorough"), ("c04_t_root_emptied_loses_level", "quick"), ("c04_t_root_underfull_keeps_level", "thorough"),
+          ("c04_t_root_plain", "thorough"), ("c04_t_first_root_created", "thorough"), ("c04_t_two_ops_second_loses_level", "thorough"), ("c04_t_two_ops_split_then_deeper", "quick"))
+for fn, tier in _c04_t:
+    add("C04", H("btree", fn, tier, ["C04.T"], "recorded depth 0..=6, whether a rewritten node moves, whether an unremarkable pass marks the root changed; outcome script and number of operations as named",
+                 "one write_sorted_changes call over 1-2 operations; unwind 12", 600, 3, unwind=12, stubs=ENV + ROOTC, replay="solver-trace-only"))
+for fn, tier in (("c04_t_root_emptied_loses_level", "quick"), ("c04_t_two_ops_second_loses_level", "thorough"), ("c04_t_root_split_adds_level", "thorough")):
+    add("C14", H("btree", fn, tier, ["C14.T"], "as for C04.T", "one write_sorted_changes call; unwind 12", 600, 3, unwind=12, stubs=ENV + ROOTC, replay="solver-trace-only"))
+PROPS["C04"]["functions"] += ["btree::BTree::write_sorted_changes (growth and loss of a level, recorded depth and root address; node work by contract)", "Node::need_remove_root"]
+PROPS["C14"]["functions"] += ["btree::BTree::write_sorted_changes (a replaced root node is released exactly once)"]
+PROPS["C04"]["bounds"] += "; tree header glue: one write_sorted_changes call over 1-2 operations with every outcome of the pass over the root, depth 0..=6"
+
+# ---- C20.W: the index walk behind migration (HashColumn::iter_index_internal)
+WALKC = ["stub: IndexTable::entries -> the harness's two sparse pages (live entries at slots 0, 5, 63 / 1, 2, 40; holes before, between and after)",
+         "stub: ValueTable::get_with_meta -> the harness's value store (symbolic reference count and 26-byte key tail per value; one value optionally missing)",
+         "stub: ValueTable::dump_entry -> empty"]
+for fn, tier in (("c20_w_index_walk_last_two_pages", "quick"), ("c20_w_index_walk_last_page", "thorough"), ("c20_w_index_walk_missing_value", "quick"), ("c20_w_index_walk_stopped", "thorough")):
+    add("C20", H("column", fn, tier, ["C20.W"], "reference count:u32 and key tail:[u8;26] of each of 6 values; which value is missing / when the callback stops as named",
+                 "index of 16 bits, walk over its last 1-2 pages (page loop and slot loop are real code), 6 live entries at concrete slots; unwind 66", 900, 3, unwind=66,
+                 stubs=ENV + WALKC, replay="solver-trace-only"))
+PROPS["C20"]["functions"] += ["HashColumn::iter_index_internal (page walk, key reconstruction, corrupted-entry reporting, early stop; page reads and value reads by contract)"]
+PROPS["C20"]["bounds"] += "; index walk: the last two pages of a 16-bit index with 6 live entries at concrete slots, every reference count and key tail"
+PROPS["C20"]["outside"] = "migrate() itself (per-rc re-commit, batching at 10240, column selection, file copies / moves, in-place overwrite), the destination commit pipeline, file-name matching (core::fmt)"
+
+# ---- C04.H: the tree header record
+HDRC = ["stub: BTree::open / BTree::write_sorted_changes -> any old and any new (root address, depth)", "stub: Column::write_existing_value_plan -> captures (address, operation, value bytes)",
+        "stub: Column::get_value -> the 12 header bytes the writer produced (or nothing)"]
+add("C04", H("btree", "c04_h_header_follows_root_and_depth", "quick", ["C04.H"], "old and new (root address:u64, depth:u32)", "one BTreeChangeSet::write_plan call with an empty change set; unwind 14", 600, 3, unwind=14,
+             stubs=ENV + HDRC, replay="solver-trace-only"))
+add("C04", H("btree", "c04_h_header_codec_roundtrip", "quick", ["C04.H"], "root address:u64, depth:u32, header present or not", "loop-free apart from 12-byte copies; unwind 14", 600, 3, unwind=14,
+             stubs=ENV + HDRC, replay="solver-trace-only"))
+PROPS["C04"]["functions"] += ["btree::commit_overlay::BTreeChangeSet::write_plan (header rewrite)", "btree::Entry::write_header", "BTreeTable::btree_header"]
+
+# ---- C12.O3b (iosub build): DbInner::clean_logs
+O3B = IOSUB + ["stub: Log::num_dirty_logs -> the late log file (appended by another worker while the tables are flushed) is counted from the second call on; it sits at the back of the queue, Log::clean_logs drains from the front",
+               "stub: TableFile::flush -> event"]
+for fn, tier in (("c12_o3b_db_clean_logs_q1", "thorough"), ("c12_o3b_db_clean_logs_q1_race", "quick"), ("c12_o3b_db_clean_logs_q2_race", "thorough"), ("c12_o3b_db_clean_logs_q2_nosync", "thorough")):
+    add("C12", H("db", fn, tier, ["C12.O3"], "none beyond the configuration named (number of dirty logs, a further log becoming dirty during the flush, sync_data)",
+                 "one-column database (3 value tables), one DbInner::clean_logs call; unwind 26", 1500, 5, variant="iosub", unwind=26, stubs=ENV + FEV + TFILE + O3B, replay="solver-trace-only"))
+PROPS["C12"]["functions"] += ["DbInner::clean_logs (every table of every column flushed before the first truncation; only logs counted before the flush are truncated)", "Column::flush / HashColumn::flush / ValueTable::flush (call order)"]
+PROPS["C12"]["bounds"] += "; DbInner::clean_logs on a one-column database with 1-2 dirty logs, with and without a log becoming dirty during the flush, sync_data on/off"
+
+# ---- C06.M: overwrite into another size class
+TMC = ["stub: ValueTable::{write_replace_plan, write_remove_plan, write_insert_plan} -> record (table, slot, length) and assert the tables' precondition (fixed table: value fits one entry; multipart table: value needs a chain); their byte-level effect is C06.S2-S4"]
+for fn, tier in (("c06_m_len2_from_fixed64", "thorough"), ("c06_m_len2_from_multipart", "quick"), ("c06_m_len4_from_fixed64", "thorough"), ("c06_m_len5_from_fixed32", "quick"), ("c06_m_len36_from_multipart", "thorough"),
+                 ("c06_m_len37_from_fixed64", "quick"), ("c06_m_len37_from_multipart", "thorough"), ("c06_m_len8_from_fixed64", "thorough")):
+    add("C06", H("column", fn, tier, ["C06.M"], "key, new value bytes, old slot 1..8, slot handed out by the insertion; new length and old size class as named",
+                 "3 tables {32, 64, multipart 64}; one write_existing_value_plan(Set) call on a plain column; unwind 102", 900, 3, unwind=102, stubs=ENV + TMC, replay="solver-trace-only"))
+PROPS["C06"]["functions"] += ["Column::write_existing_value_plan (Set arm: in place vs. release + insert into the size class of the new value)"]
+PROPS["C06"]["outside"] = PROPS["C06"]["outside"].replace("column-level move between tiers, ", "")
+
+# ---- C04.C / C04.M: BTreeIterator
+ITC = ["stub: BTreeIterState::{seek, next} -> cursor over the in-order key list (contract stated in harness/btree_iter.rs)", "stub: BTree::open -> empty tree stamped with the requested record id",
+       "stub: CommitOverlay::{btree_next, btree_prev} -> first / last overlay key in the range named by LastKey (std's BTreeMap range queries are not executed)"]
+for fn, tier in (("c04_c_record_ids_bump_last_back", "quick"), ("c04_c_record_ids_bump_seek_fwd", "thorough"), ("c04_c_record_ids_fwd_bump_back", "thorough"), ("c04_c_record_ids_bump_first_fwd", "thorough")):
+    add("C04", H("btree::iter", fn, tier, ["C04.C"], "seek key", "empty tree and overlay; two iterator calls, a record enacted before the named one; unwind 8", 600, 3, unwind=8, stubs=ENV + ITC, replay="solver-trace-only"))
+for fn, tier in (("c04_m_tree_seek_fwd_back_fwd_b3", "quick"), ("c04_m_tree_last_back_fwd_fwd_b2", "thorough"), ("c04_m_tree_fwd_fwd_bump_fwd_b3", "quick"), ("c04_m_tree_seek_back_bump_back_b3", "thorough"), ("c04_m_tree_fwd_bump_back_b2", "thorough")):
+    add("C04", H("btree::iter", fn, tier, ["C04.M", "C04.C"], "tree keys (strictly increasing bytes), seek key", "2-3 tree keys, no overlay entry; 2-4 iterator calls as named; unwind 8", 900, 4, unwind=8, stubs=ENV + ITC, replay="solver-trace-only"))
+for fn, tier in (("c04_m_fwd_fwd_b0_o1", "thorough"),):
+    add("C04", H("btree::iter", fn, tier, ["C04.M"], "tree key, overlay key, overlay entry is a value or a removal, seek key", "one tree key and one overlay entry; two iterator calls as named; unwind 8", 1800, 6, unwind=8, stubs=ENV + ITC, replay="solver-trace-only"))
+PROPS["C04"]["functions"] += ["btree::BTreeIterator::{seek, seek_to_first, seek_to_last, next, prev, iter_inner, next_backend, seek_backend, seek_backend_to_last} (merge of overlay and tree cursors, look-ahead item, re-seek after a record was enacted; the two cursors by contract)"]
+PROPS["C04"]["bounds"] += "; iterator: sequences of 2-4 calls over <= 3 tree keys without overlay entry, 2 calls over one tree key and one overlay entry"
+PROPS["C04"]["outside"] = "the overlay cursor's BTreeMap range queries (std BTreeMap intractable here), the tree cursor on trees deeper than the contract (harness C04.S did not fit), iterator sequences longer than the bound, multi-level change beyond two levels, iteration under concurrent commits"
+
+# ---- C01 also runs the reindex hand-over harnesses (a key must stay readable while its index entry is being migrated)
+for fn, tier in (("c09_r_drop_index_restarts_progress", "quick"), ("c09_r_reindex_batch_last_two_pages", "quick")):
+    add("C01", H("column", fn, tier, ["C09.R"], "see C09", "see C09", 600, 4, unwind=66 if "batch" in fn else 12, stubs=ENV + ENTC, replay="solver-trace-only"))
+
 # ---- memory classes from measurement: the registered class is an upper bound chosen before the harness was ever run; where a
 # run on the unchanged tree recorded the peak resident memory of the whole process group (lib/measured_rss_mb.json, refreshed
 # by lib/calibrate.py from the evidence files), the admission class is 1.6 x that peak + 1 GB (never above the registered
